@@ -16,7 +16,7 @@ def is_number(x):
 def search_matches(method, needle, haystack):
     th = Nodes.typed_value(haystack)
     tn = Nodes.typed_value(needle)
-    text = str(th)
+    text = str(haystack)      # the value's own text (the statement: tests 'act on the value's text')
     term = str(needle)
     if method is PathSearchMethods.EQUALS:
         # numeric when both sides are numbers of the same kind, textual otherwise
